@@ -163,17 +163,18 @@ theorem applyCredits_spec (s : State) (c : Nat) :
     (s.localMaxData < 2 ^ 64 → s.localMaxData ≤ (s.applyCredits c).localMaxData ∧
       (s.applyCredits c).localMaxData < 2 ^ 64) ∧
     (Unsat (s.applyCredits c) → (s.applyCredits c).localMaxData + s.receiveWindowShrinkDebt =
-        s.localMaxData + (s.applyCredits c).receiveWindowShrinkDebt + c) := by
+        s.localMaxData + (s.applyCredits c).receiveWindowShrinkDebt + c) ∧
+    (s.applyCredits c).receiveWindowShrinkDebt ≤ s.receiveWindowShrinkDebt := by
   unfold State.applyCredits
   split
   · rename_i hgt
-    refine ⟨rfl, rfl, rfl, rfl, ?_, ?_⟩
+    refine ⟨rfl, rfl, rfl, rfl, ?_, ?_, Nat.zero_le _⟩
     · intro hl; simp only [satAdd, natMin_eq]; omega
     · intro u
       simp only [Unsat, satAdd, natMin_eq] at u ⊢
       omega
   · rename_i hle
-    refine ⟨rfl, rfl, rfl, rfl, fun hl => ⟨Nat.le_refl _, hl⟩, ?_⟩
+    refine ⟨rfl, rfl, rfl, rfl, fun hl => ⟨Nat.le_refl _, hl⟩, ?_, Nat.sub_le _ _⟩
     intro _
     simp only
     omega
@@ -183,7 +184,8 @@ theorem addReadCredits_spec {s s' : State} {c : Nat} {t : Bool} (h : s.addReadCr
     s'.recv = s.recv ∧ s'.dataRecvd = s.dataRecvd ∧ s'.receiveWindow = s.receiveWindow ∧
     s'.streamReceiveWindow = s.streamReceiveWindow ∧
     (s.localMaxData < 2 ^ 64 → s.localMaxData ≤ s'.localMaxData ∧ s'.localMaxData < 2 ^ 64) ∧
-    (Unsat s' → s'.localMaxData + s.receiveWindowShrinkDebt = s.localMaxData + s'.receiveWindowShrinkDebt + c) := by
+    (Unsat s' → s'.localMaxData + s.receiveWindowShrinkDebt = s.localMaxData + s'.receiveWindowShrinkDebt + c) ∧
+    s'.receiveWindowShrinkDebt ≤ s.receiveWindowShrinkDebt := by
   have hs : s' = s.applyCredits c := by
     unfold State.addReadCredits at h
     dsimp only at h
@@ -198,7 +200,8 @@ theorem creditAndQueue_spec {s s' : State} {c : Nat} {t : Bool} (h : s.creditAnd
     s'.recv = s.recv ∧ s'.dataRecvd = s.dataRecvd ∧ s'.receiveWindow = s.receiveWindow ∧
     s'.streamReceiveWindow = s.streamReceiveWindow ∧
     (s.localMaxData < 2 ^ 64 → s.localMaxData ≤ s'.localMaxData ∧ s'.localMaxData < 2 ^ 64) ∧
-    (Unsat s' → s'.localMaxData + s.receiveWindowShrinkDebt = s.localMaxData + s'.receiveWindowShrinkDebt + c) := by
+    (Unsat s' → s'.localMaxData + s.receiveWindowShrinkDebt = s.localMaxData + s'.receiveWindowShrinkDebt + c) ∧
+    s'.receiveWindowShrinkDebt ≤ s.receiveWindowShrinkDebt := by
   unfold State.creditAndQueue at h
   osplit h
   all_goals
